@@ -448,8 +448,9 @@ class UF:
     the structure of their arguments; for structurally different calls of equal shape the Ackermann
     constraint (args equal => results equal) is added to the path condition."""
 
-    def __init__(self, name):
+    def __init__(self, name, injective=False):
         self.name = name
+        self.injective = injective      # axiom: equal results => equal arguments (collision-freeness), added per pair of calls
 
     def calls(self):
         return engine().ackermann.setdefault(self.name, [])
@@ -481,8 +482,13 @@ class UF:
                 continue
             pre = _simp(z3.And(*eqs)) if eqs else z3.BoolVal(True)
             if z3.is_false(pre):
+                if self.injective:
+                    eng._add(z3.Not(res.eq_term(res2)))
                 continue
-            eng._add(z3.Implies(pre, res.eq_term(res2)))
+            if self.injective:
+                eng._add(pre == res.eq_term(res2))
+            else:
+                eng._add(z3.Implies(pre, res.eq_term(res2)))
         calls.append((key, args, res))
         eng.uf_log.append((self.name, args, res))
         return res
